@@ -1,6 +1,6 @@
 (* evaluators used by generated cases files; depends on the model only *)
 From Coq Require Import List NArith Bool.
-From K.Model Require Export C38.
+From K.Model Require Export C38 C38_layout.
 Import ListNotations.
 Local Open Scope N_scope.
 
@@ -93,9 +93,9 @@ Definition mismatches (cs : list case) : list N :=
 Definition violations (cs : list case) : list N :=
   idx_filter (fun c =>
     match c_built c with
-    | None => false
+    | None => negb (C38_check2 (c_path c) None (resolve (c_path c) (c_obs c)))
     | Some r => match mkpk (c_path c) r with
                 | None => true
-                | Some k => negb (C38_check (c_path c) (Some k) (resolve (c_path c) (c_obs c)))
+                | Some k => negb (C38_check2 (c_path c) (Some k) (resolve (c_path c) (c_obs c)))
                 end
     end) 0%N cs.
